@@ -62,6 +62,11 @@ def check_substitution(sk, lang, tier, found, stats):
         m = {p[0]: a for p, a in zip(info.params, t[2])}
         want = [subst_args(s, m) for s in info.supers]
         got = [cv.term(s) for s in it.supertypes]
+        if any(w is None for w in want):
+            # a projection substituted into a projected position: not expressible as a term (C06's
+            # recorded capture finding); nothing to compare with
+            stats['skipped_projection_into_projection'] = stats.get('skipped_projection_into_projection', 0) + 1
+            continue
         if got != want:
             rec(found, 'supertypes-not-substituted', 'direct supertypes of %s' % rsub.abstract(t), sk, lang, t,
                 'got %s, expected %s' % ([rsub.show(g) if g else g for g in got], [rsub.show(w) if w else w for w in want]))
@@ -77,6 +82,8 @@ def check_substitution(sk, lang, tier, found, stats):
                 sm = {p[0]: a for p, a in zip(sinfo.params, st[2])}
                 w2 = [subst_args(x, sm) for x in sinfo.supers]
                 g2 = [cv.term(x) for x in s.supertypes]
+                if any(w is None for w in w2):
+                    continue
                 if g2 != w2:
                     rec(found, 'supertypes-not-substituted', 'transitive supertypes of %s' % rsub.abstract(t), sk, lang, t,
                         'at %s: got %s, expected %s' % (rsub.show(st), [rsub.show(g) for g in g2], [rsub.show(w) for w in w2]))
